@@ -151,7 +151,7 @@ def replay_groups(ctx, vh, vals, groups, kinds, carriers):
                 f["carriers"][car] = f["carriers"].get(car, 0) + 1
                 if f["first"] is None:
                     v = vals[g["kind"]][i]
-                    f["first"] = dict(kind="vector", vec=dict(kind=g["kind"], n=v["n"], far=v["far"], cps=v["cps"], rules=r["rules"], carrier=car),
+                    f["first"] = dict(kind="vector", vec=dict(kind=g["kind"], n=v["n"], far=v["far"], cps=v["cps"], eps=v.get("eps", 0), rules=r["rules"], carrier=car),
                                       rule=g["rule"], lo=g["lo"], hi=g["hi"], expected_violated=bool(viol[i]), observed=observed)
             st["per_carrier"][car] = st["per_carrier"].get(car, 0) + n
             st["calls"] += n
@@ -167,7 +167,7 @@ def replay_groups(ctx, vh, vals, groups, kinds, carriers):
         v = rep["vec"]
         ctx.candidate(sig, "%s value under %s expected %s by the contract, real code shows %s (%d vectors; carriers %s); first: kind=%s value=%s carrier=%s" % (
             c, v["rules"], expected, observed, f["n"], json.dumps(f["carriers"], sort_keys=True), v["kind"],
-            v["cps"] if c == "string" else ("far%+d" % v["far"] if v["far"] else v["n"]), v["carrier"]), rep)
+            v["cps"] if c == "string" else ("far%+d" % v["far"] if v["far"] else ("%s%s" % (v["n"], {1: "+eps", -1: "-eps"}.get(v.get("eps", 0), "")))), v["carrier"]), rep)
     st["sample"] = sample
     return st
 
@@ -296,19 +296,19 @@ def record_agree(ctx, vh, n):
 def replay(ctx, vh):
     r = json.load(open(ctx.replay))["replay"]
 
-    def one(kind, n, far, cps, rules, carrier):
-        out = ctx.run_vh(vh, ["rules-one"], stdin_data=json.dumps(dict(kind=kind, n=n, far=far, cps=cps, rules=rules, carrier=carrier)) + "\n").stdout
+    def one(kind, n, far, cps, rules, carrier, eps=0):
+        out = ctx.run_vh(vh, ["rules-one"], stdin_data=json.dumps(dict(kind=kind, n=n, far=far, cps=cps, eps=eps, rules=rules, carrier=carrier)) + "\n").stdout
         return json.loads(out.splitlines()[-1])["obs"]
 
     if r["kind"] in ("vector", "tuple"):
         if r["kind"] == "vector":
             v = r["vec"]
-            rec = dict(id=1, rule=r["rule"], lo=r["lo"], hi=r["hi"], kind=v["kind"], n=v["n"], far=v["far"], cps=v["cps"], carrier=v["carrier"], rules=v["rules"])
+            rec = dict(id=1, rule=r["rule"], lo=r["lo"], hi=r["hi"], kind=v["kind"], n=v["n"], far=v["far"], cps=v["cps"], eps=v.get("eps", 0), carrier=v["carrier"], rules=v["rules"])
         else:
             rec = dict(r["rec"])
             rec.pop("bad", None)
             rec["id"] = 1
-        ob = one(rec["kind"], rec["n"], rec["far"], rec["cps"], rec["rules"], rec["carrier"])
+        ob = one(rec["kind"], rec["n"], rec["far"], rec["cps"], rec["rules"], rec["carrier"], rec.get("eps", 0))
         ctx.log("real code: %s" % json.dumps(ob, ensure_ascii=False))
         if ob["verdict"] not in "01":
             ctx.candidate(dict(src="replay", carrier=rec["carrier"], observed="error"), "replayed call answers %s" % json.dumps(ob, ensure_ascii=False), r)
@@ -329,7 +329,7 @@ def replay(ctx, vh):
         rules = ",".join(x["text"] for x in rec["rules"])
         obs = []
         for o in rec["obs"]:
-            ob = one(rec["kind"], rec["n"], rec["far"], rec["cps"], rules, o["c"])
+            ob = one(rec["kind"], rec["n"], rec["far"], rec["cps"], rules, o["c"], rec.get("eps", 0))
             obs.append(dict(c=o["c"], toks=ob["toks"], bodies=ob["bodies"] + (["panic: " + ob["panic"]] if ob.get("panic") else []), v=ob["verdict"]))
         rec["obs"] = obs
         rec["id"] = 1
